@@ -321,7 +321,27 @@ fn convergence_case(cx: &mut Cx) {
             sim.nodes[i].drv.verif_reset_replication_throttle();
             sim.nodes[i].drv.verif_fetcher_age(std::time::Duration::from_secs(25));
             // (a) the advertisement
-            let held_now: BTreeSet<(Vec<u8>, String)> = sim.all_addresses(i).into_iter().map(|(a, t)| (a.to_record_key().to_vec(), format!("{t:?}"))).collect();
+            // what the node holds, typed from the *content it serves* (not from its own index): chunks as
+            // Chunk, mutable kinds by the hash of the stored value (scratchpads: the marker is admitted too)
+            let listed = sim.all_addresses(i);
+            let mut held_now: BTreeSet<(Vec<u8>, String)> = BTreeSet::new();
+            let mut pad_marker_ok: BTreeSet<Vec<u8>> = BTreeSet::new();
+            for (a, _) in listed.iter() {
+                let k = a.to_record_key();
+                match sim.get_local(i, &k) {
+                    Some(rec) => {
+                        let is_chunk = ant_protocol::storage::RecordHeader::is_record_of_type_chunk(&rec).unwrap_or(false);
+                        let t = if is_chunk { RecordType::Chunk } else { RecordType::NonChunk(XorName::from_content(&rec.value)) };
+                        if matches!(ant_protocol::storage::RecordHeader::from_record(&rec).map(|h| h.kind), Ok(ant_protocol::storage::RecordKind::Scratchpad)) {
+                            pad_marker_ok.insert(k.to_vec());
+                        }
+                        held_now.insert((k.to_vec(), format!("{t:?}")));
+                    }
+                    None => {
+                        cx.violation("listed-record-not-readable", format!("node {i} lists a record it cannot serve"), json!({"round": round}));
+                    }
+                }
+            }
             let self_addr = NetworkAddress::from_peer(sim.nodes[i].peer);
             let candidates: BTreeSet<PeerId> = sim.nodes[i].drv.verif_get_replicate_candidates(&self_addr).into_iter().collect();
             let before = sim.nodes[i].sent_replicates.len();
@@ -345,14 +365,28 @@ fn convergence_case(cx: &mut Cx) {
                     cx.eval();
                     cx.count("advertisements-checked");
                     sent_to.insert(*peer);
-                    let adv_set: BTreeSet<(Vec<u8>, String)> = adv.iter().map(|(a, t)| (a.to_record_key().to_vec(), format!("{t:?}"))).collect();
+                    let adv_set: BTreeSet<(Vec<u8>, String)> = adv
+                        .iter()
+                        .map(|(a, t)| {
+                            let k = a.to_record_key().to_vec();
+                            if *t == RecordType::Scratchpad && pad_marker_ok.contains(&k) {
+                                // version-less marker: compare as the current version
+                                let cur = held_now.iter().find(|(hk, _)| *hk == k).map(|(_, ht)| ht.clone()).unwrap_or_default();
+                                (k, cur)
+                            } else {
+                                (k, format!("{t:?}"))
+                            }
+                        })
+                        .collect();
                     if *holder != self_addr {
                         cx.violation("advertisement-names-another-holder", format!("node {i} advertised as {holder:?}"), wjson(json!({"round": round})));
                     }
                     if adv_set != held_now {
                         let missing = held_now.difference(&adv_set).count();
                         let surplus = adv_set.difference(&held_now).count();
-                        cx.violation(if missing > 0 { "held-record-not-advertised" } else { "advertised-record-not-held" }, format!("node {i} round {round}: advertisement to {peer} lacks {missing} of {} held records and lists {surplus} it does not hold", held_now.len()), wjson(json!({"round": round})));
+                        let stale = held_now.difference(&adv_set).filter(|(k, _)| adv_set.iter().any(|(ak, _)| ak == k)).count();
+                        let sig = if stale > 0 { "record-advertised-with-a-version-it-does-not-hold" } else if missing > 0 { "held-record-not-advertised" } else { "advertised-record-not-held" };
+                        cx.violation(sig, format!("node {i} round {round}: advertisement to {peer} lacks {missing} of {} held (address, version) pairs ({stale} with another version) and lists {surplus} it does not hold", held_now.len()), wjson(json!({"round": round})));
                     }
                 }
             }
